@@ -532,3 +532,27 @@ Proof.
   pose proof (apply_rstep_prefix p st) as H1. pose proof (IH (apply_rstep p st)) as H2.
   exact (firstn_prefix_trans p (apply_rstep p st) _ H1 H2).
 Qed.
+
+(* ------------------------------------------------------------------ adaptive_subdomains *)
+Lemma dedup_sorted_In x l : In x (dedup_sorted l) <-> In x l.
+Proof.
+  induction l as [|a l IH]; [reflexivity|].
+  destruct l as [|b l']; [reflexivity|].
+  change (dedup_sorted (a :: b :: l')) with (if Nat.eqb a b then dedup_sorted (b :: l') else a :: dedup_sorted (b :: l')).
+  destruct (Nat.eqb a b) eqn:E.
+  - apply Nat.eqb_eq in E. subst b. rewrite IH. simpl. tauto.
+  - simpl In at 1. rewrite IH. simpl. tauto.
+Qed.
+
+(* the propagated tag setdiff1d(unique(new_t[:, ixs]), [-1]) is exactly the set of the children of the tagged cells *)
+Theorem propagate_adaptive_spec blocks submap cls ixs c :
+  In c (propagate_adaptive blocks submap cls ixs) <->
+  exists k j, In k ixs /\ j < class_size blocks (nth k cls 0) /\
+              c = submap (count_cls cls) (nth k cls 0) j (rank_in_cls cls k).
+Proof.
+  unfold propagate_adaptive. rewrite dedup_sorted_In, sort_nat_In, in_flat_map. unfold adaptive_children. split.
+  - intros [k [Hk Hc]]. apply in_map_iff in Hc. destruct Hc as [j [<- Hj]]. apply in_seq in Hj.
+    exists k, j. repeat split; auto; lia.
+  - intros [k [j [Hk [Hj ->]]]]. exists k. split; [exact Hk|]. apply in_map_iff. exists j. split; [reflexivity|].
+    apply in_seq. lia.
+Qed.
